@@ -256,6 +256,11 @@ def gen_value(rng):
     sign = rng.choice((-1, 1))
     unit = rng.choice((1.0, 15.0))         # arc-seconds or time-seconds grid
     nfor = None
+    if r < 0.02:
+        # whole turns (exactly, and one ulp either side) before reduction
+        k = 360.0 * rng.randrange(1, 6)
+        return sign * rng.choice((k, math.nextafter(k, 0.0),
+                                  math.nextafter(k, 1e9))), None, None
     if r < 0.15:
         return sign * rng.uniform(0.0, 360.0), None, None
     if r < 0.22:
@@ -304,7 +309,10 @@ def directed(mon, all_nd):
               359.9999999, -359.9999999, 15.0, -15.0, 14.999999999,
               359.99998611, 23.44694444, -23.44694444, 0.016666666666,
               0.0002777777777, -0.000277777, 5e-324, 1.3888888888e-8,
-              359.999999999999, 0.99999999999999):
+              359.999999999999, 0.99999999999999,
+              # whole turns and half turns, as numbers before reduction
+              360.0, -360.0, 720.0, -720.0, 1080.0, -3600.0, 180.0, -180.0,
+              540.0, -540.0, 360.00000000000006, -360.00000000000006):
         mon.begin("value", [v, nd, None])
         case_value(mon, v, nd)
 
